@@ -64,7 +64,7 @@ def unicode_doc(max_lines, maxlen):
         "mpos": st.integers(0, 40),
         "indent": st.just(""),
     })
-    return st.one_of(leader, leader, leader, bare)
+    return G.weighted((3, leader), (1, bare))
 
 
 def strategy(tier):
